@@ -43,15 +43,18 @@ def run(tier):
         jobs.append(("race-1e6", hzr, 125000, plans[:3]))
     else:
         jobs.append(("plain-1e6", hz, 125000, plans[:2]))
+    # first-use races (lazily initialised package state): one fresh process per storm plan, concurrent phase first
+    for p_ in plans[:17]:
+        jobs.append(("first-%d" % p_["id"], hzr if p_["id"] % 2 == 0 else hz, 2500, [p_]))
     from concurrent.futures import ThreadPoolExecutor
     def one(arg):
         name, binp, nbytes, pls = arg
         jp = os.path.join(tmp, "j_%s.json" % name); op = os.path.join(tmp, "o_%s.ndjson" % name)
         with open(jp, "w") as fh:
-            json.dump({"nbytes": nbytes, "seed": rng.randrange(1 << 40), "plans": [{"id": p["id"], "goroutines": p["goroutines"], "tasks": p["tasks"], "rounds": p["rounds"]} for p in pls]}, fh)
+            json.dump({"nbytes": nbytes, "seed": rng.randrange(1 << 40), "concFirst": name.startswith("first-"), "plans": [{"id": p["id"], "goroutines": p["goroutines"], "tasks": p["tasks"], "rounds": p["rounds"]} for p in pls]}, fh)
         p = vlib.run_bin(binp, ["concurrent", jp, op], timeout=6000, env={"GORACE": "halt_on_error=0"})
         return name, p, (vlib.read_ndjson(op) if os.path.exists(op) else [])
-    with ThreadPoolExecutor(max_workers=2) as ex:
+    with ThreadPoolExecutor(max_workers=4) as ex:
         results = list(ex.map(one, jobs))
     nrace = 0
     for name, p, evs in results:
